@@ -1,7 +1,7 @@
 (* C01 for the notebook differ with the tables read from /repo (Gen/NbConfig.v). *)
 From Coq Require Import List NArith ZArith Bool Lia String.
 From NB Require Import Base.Res Base.Json Base.PyStr Diff.DiffFormat Diff.Patch Diff.GenericDiff Diff.Wf
-     Diff.Codec Diff.StringProofs Diff.MasterProofs Diff.SpecProofs Diff.NbGood Diff.NbProofs Gen.NbConfig.
+     Diff.Codec Diff.StringProofs Diff.MasterProofs Diff.SpecProofs Diff.NbGood Diff.NbProofs Diff.NbTotal Gen.NbConfig.
 Import ListNotations.
 
 (* the tables /repo installs meet what the proof needs (strict comparisons, a lone predicate is
@@ -37,8 +37,8 @@ Definition ex_cell (src : json) (outs : list json) : json :=
   JObj [(s "cell_type", JStr (s "code")); (s "metadata", JObj []); (s "outputs", JArr outs); (s "source", src)].
 Definition ex_out (txt : string) : json :=
   JObj [(s "data", JObj [(s "text/plain", JStr (s txt))]); (s "metadata", JObj []); (s "output_type", JStr (s "display_data"))].
-Definition ex_a : json := JObj [(s "cells", JArr [ex_cell (JArr [JStr (s "x")]) [ex_out "1"]]); (s "nbformat", JInt 4)].
-Definition ex_b : json := JObj [(s "cells", JArr [ex_cell (JArr [JStr (s "x")]) [ex_out "2"]]); (s "nbformat", JInt 4)].
+Definition ex_a : json := JObj [(s "cells", JArr [ex_cell (JStr (s "x")) [ex_out "1"]]); (s "nbformat", JInt 4)].
+Definition ex_b : json := JObj [(s "cells", JArr [ex_cell (JStr (s "x")) [ex_out "2"]]); (s "nbformat", JInt 4)].
 Example nb_example :
   wfj ex_a = true /\ wfj ex_b = true /\ sources_are_strings ex_a = true
   /\ exists d, diff_ ex_O nb_config 40 [] ex_a ex_b = Ok d /\ d <> [] /\ patch 12 ex_a d = Ok ex_b.
@@ -46,3 +46,33 @@ Proof.
   split; [vm_compute; reflexivity|]. split; [vm_compute; reflexivity|]. split; [vm_compute; reflexivity|].
   eexists. split; [vm_compute; reflexivity|]. split; [discriminate | vm_compute; reflexivity].
 Qed.
+
+(* ---------- totality on notebook-shaped documents ---------- *)
+Lemma nb_config_tot : cfg_tot nb_config = true.
+Proof. vm_compute. reflexivity. Qed.
+
+(* the shape nbformat gives a notebook, as far as the differ reads it: "cells" is a list of objects; a
+   cell's "source" is a string, its "outputs" a list of objects with a string "output_type" (and an object
+   "data" when that is display_data / execute_result), its "attachments" an object of objects;
+   everything else (metadata, unknown keys) is arbitrary JSON *)
+Definition notebook_shaped (nb : json) : bool := is_obj nb && shape_diff nb_config [] nb.
+
+Lemma nb_total O n a b :
+  opcodes_valid O -> wfj a = true -> wfj b = true -> sources_are_strings a = true ->
+  notebook_shaped a = true -> notebook_shaped b = true -> 4 * depth a + 4 <= n ->
+  exists d, diff_ O nb_config n [] a b = Ok d
+            /\ (forall m, depth a < m -> patch m a d = Ok b)
+            /\ (forall f, depth a < f -> wf_diff f a d = true)
+            /\ (forall f, depth a < f -> check_diff f a b d = true)
+            /\ (d = [] -> a = b).
+Proof.
+  intros Hops Hwa Hwb Hs Sa Sb Hn.
+  apply andb_true_iff in Sa as [Oa Sa]. apply andb_true_iff in Sb as [Ob Sb].
+  destruct a; try discriminate. destruct b; try discriminate.
+  destruct (nb_diff_total O nb_config Hops nb_config_ok nb_config_tot n _ _ Hwa Hwb Hs Sa Sb eq_refl eq_refl Hn) as (d & Hd & _).
+  exists d. split; [exact Hd|]. eapply nb_roundtrip; eassumption.
+Qed.
+
+Example nb_shaped_example : notebook_shaped ex_a = true /\ notebook_shaped ex_b = true
+  /\ notebook_shaped (JObj [(s "cells", JArr [ex_cell (JStr (s "x")) [JObj [(s "output_type", JStr (s "display_data"))]]])]) = false.
+Proof. vm_compute. repeat split. Qed.
